@@ -473,13 +473,19 @@ class Fn:
                 x = self.var()
                 if x is None:
                     continue
-                a, b = self.fresh("v")[1], self.fresh("v")[1]
-                fa, fb = self.fresh(), self.fresh()
-                self.eq(self.env[x], tup(fa, fb))
-                lines.append("let (%s, %s) = %s" % (a, b, x))
-                self.stmts.append(["destr", [a, b], V(x)])
-                self.env[a], self.env[b] = fa, fb
-                self.unused += [a, b]
+                # ... or a triple; ignored components (_) have a type of their own (defect 26 of DESIGN section 6)
+                n = rng.choice([2, 2, 3])
+                names = [self.fresh("v")[1] if rng.random() < 0.7 else "_" for _ in range(n)]
+                if all(q == "_" for q in names):
+                    names[rng.randrange(n)] = self.fresh("v")[1]
+                comps = [self.fresh() for _ in range(n)]
+                self.eq(self.env[x], ["tuple", comps])
+                lines.append("let (%s) = %s" % (", ".join(names), x))
+                self.stmts.append(["destr", names, V(x)])
+                for q, tq in zip(names, comps):
+                    if q != "_":
+                        self.env[q] = tq
+                        self.unused.append(q)
             else:
                 v = self.fresh("v")[1]
                 e, te, xe = self.expr(2)
